@@ -528,6 +528,30 @@ def Buffered.updateDocument (b : Buffered) (d : DocRec) : Buffered × Option Err
 def Buffered.close (b : Buffered) : Except Err Toc :=
   (if b.count > 0 then b.writer.addReader b.ram else .ok b.writer).bind fun w => w.commitPlan b.plan
 
+/-- one call on a `BufferedWriter`; the writer as an exception (if any) leaves it -/
+def Buffered.step (b : Buffered) : Op → Buffered
+  | .add d => match b.addDocument d with
+    | .ok b' => b'
+    | .error _ => b
+  | .update d => (b.updateDocument d).1
+  | .delBy q => match b.deleteByQuery q with
+    | .ok r => r.1
+    | .error _ => b
+  | .delDoc n => match b.deleteDocument n with
+    | .ok b' => b'
+    | .error _ => b
+  | _ => b
+
+/-- what a call on a `BufferedWriter` means on the dictionary: every call sees committed + buffered -/
+def flatStep (sp : State) : Op → State
+  | .add d => if d.fits sp.schema then { sp with docs := sp.docs ++ [d] } else sp
+  | .update d =>
+    { sp with docs := sp.docs.filter (fun c => !sharesUnique (uniqTerms sp.schema d) c) ++
+                      (if d.fits sp.schema then [d] else []) }
+  | .delBy (.pred p) => { sp with docs := sp.docs.filter (fun c => !p c) }
+  | .delBy (.term f t) => { sp with docs := sp.docs.filter (fun c => !c.hasTerm f t) }
+  | _ => sp
+
 /-- what the buffered writer's own searcher sees -/
 def Buffered.content (b : Buffered) : List DocRec := contentOf b.writer.schema b.readSegs
 
